@@ -42,13 +42,22 @@ def text_width_in(text: str, font: int = 1, size: float = 9) -> float:
     return _font(font, size).getlength(text) / 72.0
 
 
-def fill_to_lines(tag: str, lines: int, col_in: float, font: int = 1, size: float = 9) -> str:
+def fill_to_lines(tag: str, lines: int, col_in: float, font: int = 1, size: float = 9, wide: bool = False) -> str:
     """tag + filler words so that the text needs exactly `lines` lines in a column of
     width col_in (mid-band: (lines-0.5) * col_in), for any reasonable estimator."""
     if lines <= 1:
         return tag
     target = (lines - 0.5) * col_in
     s = tag
+    if wide:
+        # few, wide glyphs: the extent is just past the line (band 0.2) while the CHARACTER COUNT stays far below what an
+        # average-glyph capacity estimate allows on one line - a length-based shortcut undercounts these rows
+        target = (lines - 0.8) * col_in
+        k = 0
+        while text_width_in(s, font, size) < target:
+            s += " " + "WM" * 2 if k % 3 == 2 else "WM"[k % 2]
+            k += 1
+        return s
     while text_width_in(s, font, size) < target:
         s += " ww"
     return s
@@ -202,7 +211,7 @@ def _apply_heights(spec, data, shown, widths_in):
 
         data[col] = [indented(v, heights[r]) if heights[r] > 1 else v for r, v in enumerate(data[col])]
         return
-    data[col] = [fill_to_lines(v, heights[r], widths_in[j], font, size) if heights[r] > 1 else v
+    data[col] = [fill_to_lines(v, heights[r], widths_in[j], font, size, wide=bool(spec.get("wide_fill"))) if heights[r] > 1 else v
                  for r, v in enumerate(data[col])]
 
 
